@@ -16,7 +16,7 @@ import (
 func TestC21(t *testing.T) {
 	r := vf.Start(t, "C21", vf.Exploration)
 	defer r.Finish()
-	r.SetRule("Part (i) Harness B: 2-3 real clients <-> tap/proxy <-> real server; every client holds 1-3 ClientPeerRefs per remote peer (AddPeerRef called repeatedly for the same peer: one shared session; each Send / Recv names the ref it goes through and runs in its own goroutine); case = PRNG program of <= 8 sends plus receives (application Recv calls are issued explicitly, so receivers can be late; Recv calls with an ALREADY CANCELLED context; cancellation of parked Recv activities, also racing an arriving message), send cancellations, stream kills (re-open), and proxy faults within a stream (drop / duplicate / late duplicate / stall of acks, RecvMsg, SendMsg), with quiescent points in between; half of the programs start from directed templates (late receiver + late duplicate ack with the next send through another ref, cancel then next send, caller gives up while the ack is stalled then next send through another ref, equal per-ref warm-up histories first, kill between receive and ack, dead-context Recv on a pending message, parked Recv cancelled around the release of a stalled RecvMsg, dead-context and normal Recv calls interleaved). One logical clock (atomic counter): Recv operations are intervals [call, ret], SendRet is a point. Oracle: SendRet(id, ok) => a Recv operation of the addressed peer's application returned id and its CALL precedes SendRet; every Recv-returned payload was sent by that session's partner to this peer; a Recv that returned an error handed nothing over, so at the final quiescent point the number of AckMsg(s) a client emitted towards a partner is <= the number of successful Recv returns of a message with seqno s from that partner. Part (ii) real client against a scripted relay: directed scripts (acks naming a seqno other than the outstanding one - duplicates of earlier acks, +1, +5, 0, huge; clears naming another seqno; ack requested before the application's Recv call; cancel followed by a late ack of the cancelled message; re-open then wrong ack; with 2-3 ClientPeerRefs: cancelled message acked late / duplicate of an earlier ack while the next message sent through another ref is outstanding, concurrent sends through different refs; application Recv with a dead context on a pending message, around a delivery, after a parked Recv was cancelled) with every parameter value enumerated, plus PRNG scripts over the same step alphabet (1-3 refs, dead-context Recv, cancelrecv). Oracle after every step at a quiescent point: Send ok => the relay pushed AckMsg(seq of that message) after having seen its SendMsg, and one of these acks was pushed on behalf of THAT message (script step ack(id), or an ack chosen by number which stands for every payload the client sent under that number) - an ack of another message never completes it; every AckMsg the client emits names a delivered message and is preceded by an application Recv that returned it (count of acks(q) <= count of Recv returns of q); every ClearMsg the client emits names a message whose Send was cancelled; a delivered, un-cleared message is returned by a pending Recv (expect steps, only where no re-open intervenes). Non-trivial = at least one Send completed ok, or one wrong ack/clear was delivered while a message was outstanding, or a dead-context Recv found a pending message; distinct = distinct programs/scripts")
+	r.SetRule("Part (i) Harness B: 2-3 real clients <-> tap/proxy <-> real server; every client holds 1-3 ClientPeerRefs per remote peer (AddPeerRef called repeatedly for the same peer: one shared session; each Send / Recv names the ref it goes through and runs in its own goroutine); case = PRNG program of <= 8 sends plus receives (application Recv calls are issued explicitly, so receivers can be late; Recv calls with an ALREADY CANCELLED context; cancellation of parked Recv activities, also racing an arriving message), send cancellations, stream kills (re-open), and proxy faults within a stream (drop / duplicate / late duplicate / stall of acks, RecvMsg, SendMsg), with quiescent points in between; half of the programs start from directed templates (late receiver + late duplicate ack with the next send through another ref, cancel then next send, caller gives up while the ack is stalled then next send through another ref, equal per-ref warm-up histories first, kill between receive and ack, dead-context Recv on a pending message, parked Recv cancelled around the release of a stalled RecvMsg, dead-context and normal Recv calls interleaved). One logical clock (atomic counter): Recv operations are intervals [call, ret], SendRet is a point. Oracle: SendRet(id, ok) => a Recv operation of the addressed peer's application returned id and its CALL precedes SendRet; every Recv-returned payload was sent by that session's partner to this peer; a Recv that returned an error handed nothing over, so at the final quiescent point the number of AckMsg(s) a client emitted towards a partner is <= the number of successful Recv returns of a message with seqno s from that partner. A second family of Harness-B programs (90 quick) covers (a) NEW INCARNATIONS of a peer: the old client object stops without the server noticing (its calls stay registered), a fresh client object of the same identity (message seqnos restarting at 1) opens its sessions and usurps them, while the partner holds an unprocessed message of the old incarnation, the new incarnation's first message is slow (stalled RecvMsg) and the partner application calls Recv late; also both peers re-incarnating, a slow ack of the old incarnation's message, 0-1 completed exchanges before; (b) blocked client writers (write gate on the client's stream: Send(m1) transmitted, the caller gives up, the partner's ack arrives, only then the write returns, next Send with a late receiver; receiver's ack write blocked while the sender cancels and re-sends); oracle unchanged. Part (ii) real client against a scripted relay: directed scripts (acks naming a seqno other than the outstanding one - duplicates of earlier acks, +1, +5, 0, huge; clears naming another seqno; ack requested before the application's Recv call; cancel followed by a late ack of the cancelled message; re-open then wrong ack; with 2-3 ClientPeerRefs: cancelled message acked late / duplicate of an earlier ack while the next message sent through another ref is outstanding, concurrent sends through different refs; application Recv with a dead context on a pending message, around a delivery, after a parked Recv was cancelled) with every parameter value enumerated, plus PRNG scripts over the same step alphabet (1-3 refs, dead-context Recv, cancelrecv). BLOCKED WRITER (slow upstream link): a one-shot gate in the fake stream parks the client's session routine inside its write of a SendMsg / ClearMsg / AckMsg (before the relay sees the request, or after the relay handled it but before the write returns) while the application cancels the Send and the relay pushes the ack of that message, in both orders, once or twice, with the next Send issued before or after the write returns (40 enumerated scripts T10a-e over 1-2 refs, 0-1 warm-up exchanges, both gate positions; every other PRNG script contains windows of 1-4 steps with a blocked writer); an ack pushed by number while the named SendMsg is blocked on its way to the relay counts as an ack of that message (the client regards it as transmitted). Oracle after every step at a quiescent point: Send ok => the relay pushed AckMsg(seq of that message) after having seen its SendMsg, and one of these acks was pushed on behalf of THAT message (script step ack(id), or an ack chosen by number which stands for every payload the client sent under that number) - an ack of another message never completes it; every AckMsg the client emits names a delivered message and is preceded by an application Recv that returned it (count of acks(q) <= count of Recv returns of q); every ClearMsg the client emits names a message whose Send was cancelled; a delivered, un-cleared message is returned by a pending Recv (expect steps, only where no re-open intervenes). Non-trivial = at least one Send completed ok, or one wrong ack/clear was delivered while a message was outstanding, or a dead-context Recv found a pending message; distinct = distinct programs/scripts")
 	r.Assume("'in the same signaling session' is not enforced beyond the identity of the partner application: a message the partner's application received before a re-open counts as received (DESIGN 8 / report)")
 	pool := keys.Pool(r.Rand("c21-keys"), 9)
 
@@ -46,8 +46,9 @@ func TestC21(t *testing.T) {
 // Part (ii): scripted relay
 
 type c21Step struct {
-	Do    string // opened | reopen | closeopen | send | cancel | ack | ackabs | recvmsg | clear | apprecv | apprecvc | cancelrecv | expect-recv | expect-pending
-	ID    string // send / cancel / ack(of) / recvmsg / expect-recv / expect-pending
+	Do    string // opened | reopen | closeopen | send | cancel | ack | ackabs | recvmsg | clear | apprecv | apprecvc | cancelrecv | stall | unstall | expect-recv | expect-pending
+	ID    string // send / cancel / ack(of) / recvmsg / expect-recv / expect-pending; stall: request kind (send | ack | clear | any)
+	After bool   // stall: park the client's writer AFTER the relay got the request (else before)
 	Delta int64  // ack: seq(ID)+Delta
 	Seq   uint64 // ackabs / clear / recvmsg(q)
 	N     int    // apprecv: number of messages; cancelrecv: index of the receive activity
@@ -70,6 +71,8 @@ func (s c21Step) String() string {
 		return fmt.Sprintf("cancelrecv(#%d)", s.N)
 	case "send":
 		return fmt.Sprintf("send(%s,r%d)", s.ID, s.Ref)
+	case "stall":
+		return fmt.Sprintf("stall-write(%s,%s)", s.ID, map[bool]string{false: "before-relay", true: "after-relay"}[s.After])
 	case "cancel", "expect-recv", "expect-pending":
 		return fmt.Sprintf("%s(%s)", s.Do, s.ID)
 	}
@@ -179,14 +182,84 @@ func genC21Scripts(r *vf.Run) []c21Script {
 				c21Step{Do: "apprecvc", Ref: refs - 1}, c21Step{Do: "recvmsg", ID: "r2", Seq: q + 1}, c21Step{Do: "apprecv", N: 2}, c21Step{Do: "expect-recv", ID: "r2"})
 		}
 	}
+	// T10 cancel / ack RACES while the client's writer is blocked in a write (slow upstream link):
+	// the session routine cannot process the cancel (or anything else) until the write returns
+	for refs := 1; refs <= 2; refs++ {
+		for warm := 0; warm <= 1; warm++ {
+			var pre []c21Step
+			pre = append(pre, op)
+			for k := 0; k < warm*refs; k++ {
+				id := fmt.Sprintf("w%d", k)
+				pre = append(pre, c21Step{Do: "send", ID: id, Ref: k}, c21Step{Do: "ack", ID: id})
+			}
+			cp := func(st ...c21Step) []c21Step { return append(append([]c21Step(nil), pre...), st...) }
+			m1seq := uint64(warm*refs + 1) // Send calls so far + 1
+			tail := []c21Step{{Do: "unstall"}, {Do: "send", ID: "m2", Ref: refs - 1}, {Do: "expect-pending", ID: "m2"}, {Do: "ack", ID: "m1"}, {Do: "expect-pending", ID: "m2"}, {Do: "ack", ID: "m2"}}
+			for _, after := range []bool{true, false} {
+				// the ack the relay pushes for m1: by payload once the relay has it, by number while the write is still blocked before the relay
+				ack1 := c21Step{Do: "ack", ID: "m1"}
+				if !after {
+					ack1 = c21Step{Do: "ackabs", Seq: m1seq}
+				}
+				w := map[bool]string{true: "after-relay", false: "before-relay"}[after]
+				// (a) the application gives up first, then the ack arrives, then the write returns
+				addR(refs, fmt.Sprintf("T10a blocked-write cancel-then-ack %s warm=%d", w, warm), cp(append([]c21Step{{Do: "stall", ID: "send", After: after}, {Do: "send", ID: "m1"}, {Do: "cancel", ID: "m1"}, ack1}, tail...)...)...)
+				// (b) the ack arrives first, then the (now void) cancel
+				addR(refs, fmt.Sprintf("T10b blocked-write ack-then-cancel %s warm=%d", w, warm), cp(append([]c21Step{{Do: "stall", ID: "send", After: after}, {Do: "send", ID: "m1"}, ack1, {Do: "cancel", ID: "m1"}}, tail...)...)...)
+				// (c) as (a), the ack delivered twice and the next message queued before the write returns
+				addR(refs, fmt.Sprintf("T10c blocked-write cancel-ack-ack-send %s warm=%d", w, warm), cp(c21Step{Do: "stall", ID: "send", After: after}, c21Step{Do: "send", ID: "m1"}, c21Step{Do: "cancel", ID: "m1"}, ack1, ack1,
+					c21Step{Do: "send", ID: "m2", Ref: refs - 1}, c21Step{Do: "unstall"}, c21Step{Do: "expect-pending", ID: "m2"}, c21Step{Do: "ack", ID: "m2"})...)
+				// (d) the blocked write is the ClearMsg of the cancelled message; its late ack and a duplicate arrive around it
+				addR(refs, fmt.Sprintf("T10d blocked-clear late-acks %s warm=%d", w, warm), cp(c21Step{Do: "send", ID: "m1"}, c21Step{Do: "stall", ID: "clear", After: after}, c21Step{Do: "cancel", ID: "m1"}, c21Step{Do: "ack", ID: "m1"},
+					c21Step{Do: "send", ID: "m2", Ref: refs - 1}, c21Step{Do: "ack", ID: "m1"}, c21Step{Do: "unstall"}, c21Step{Do: "expect-pending", ID: "m2"}, c21Step{Do: "ack", ID: "m2"})...)
+				// (e) the blocked write is the AckMsg for a received message: a send is queued, given up and "acked" by number meanwhile
+				addR(refs, fmt.Sprintf("T10e blocked-ack queued-send-cancelled %s warm=%d", w, warm), cp(c21Step{Do: "recvmsg", ID: "r1", Seq: 4}, c21Step{Do: "stall", ID: "ack", After: after}, c21Step{Do: "apprecv", N: 1},
+					c21Step{Do: "send", ID: "m1"}, c21Step{Do: "cancel", ID: "m1"}, c21Step{Do: "ackabs", Seq: m1seq}, c21Step{Do: "unstall"}, c21Step{Do: "send", ID: "m2", Ref: refs - 1},
+					c21Step{Do: "expect-pending", ID: "m2"}, c21Step{Do: "ackabs", Seq: m1seq}, c21Step{Do: "expect-pending", ID: "m2"}, c21Step{Do: "ack", ID: "m2"}, c21Step{Do: "expect-recv", ID: "r1"})...)
+			}
+		}
+	}
 	// PRNG scripts over the same alphabet
 	rng := r.Rand("c21-scripted")
+	srng := r.Rand("c21-scripted-blocked-writes")
 	for i, n := 0, r.N(200, 5000); i < n; i++ {
 		st := []c21Step{op}
 		ns, nr, na := 0, 0, 0
 		q := uint64(rng.IntN(3))
 		refs := []int{1, 2, 2, 3}[rng.IntN(4)]
 		for j, m := 0, 6+rng.IntN(8); j < m; j++ {
+			if i%2 == 1 && srng.IntN(4) == 0 {
+				// every other script: a window in which the client's writer is blocked in a
+				// write while the application and the relay go on (drawn from its own stream)
+				kind := []string{"send", "send", "send", "any", "clear", "ack"}[srng.IntN(6)]
+				st = append(st, c21Step{Do: "stall", ID: kind, After: srng.IntN(3) != 0})
+				if kind == "send" || kind == "any" {
+					st = append(st, c21Step{Do: "send", ID: fmt.Sprintf("s%d", ns), Ref: srng.IntN(refs)})
+					ns++
+				}
+				for k, w := 0, 1+srng.IntN(4); k < w; k++ {
+					last := fmt.Sprintf("s%d", ns-1)
+					switch y := srng.IntN(10); {
+					case y < 3 && ns > 0:
+						st = append(st, c21Step{Do: "cancel", ID: last})
+					case y < 6 && ns > 0:
+						st = append(st, c21Step{Do: "ack", ID: last})
+					case y == 6:
+						st = append(st, c21Step{Do: "ackabs", Seq: uint64(srng.IntN(ns + 2))})
+					case y == 7:
+						st = append(st, c21Step{Do: "send", ID: fmt.Sprintf("s%d", ns), Ref: srng.IntN(refs)})
+						ns++
+					case y == 8:
+						q++
+						st = append(st, c21Step{Do: "recvmsg", ID: fmt.Sprintf("r%d", nr), Seq: q}, c21Step{Do: "apprecv", N: 1, Ref: srng.IntN(refs)})
+						nr++
+						na++
+					default:
+						st = append(st, c21Step{Do: []string{"reopen", "closeopen"}[srng.IntN(2)]})
+					}
+				}
+				st = append(st, c21Step{Do: "unstall"})
+			}
 			switch x := rng.IntN(14); {
 			case x < 3:
 				st = append(st, c21Step{Do: "send", ID: fmt.Sprintf("s%d", ns), Ref: rng.IntN(refs)})
@@ -266,6 +339,7 @@ func runC21Scripted(r *vf.Run, idx int, sc c21Script, pool []*keys.Identity, b *
 	delivered := map[uint64]string{} // q -> payload delivered with RecvMsg
 	wrongDelivered := 0              // wrong acks / clears delivered while something was outstanding
 	okSends := 0
+	blockedEvents := 0 // cancels / acks / sends ... that happened while the client's writer was parked in a write
 
 	seqOf := func(id string) (uint64, bool) {
 		for _, rq := range relay.Reqs() {
@@ -299,7 +373,7 @@ func runC21Scripted(r *vf.Run, idx int, sc c21Script, pool []*keys.Identity, b *
 			okSends++
 			if validAcks[so.Seqno] == 0 {
 				r.Violation("scripted/send-ok-without-matching-ack",
-					fmt.Sprintf("Send(%s) (message seqno %d) returned ok although the relay never pushed AckMsg(%d) after seeing that message: an ack naming another seqno completed it", id, so.Seqno, so.Seqno), witness(step))
+					fmt.Sprintf("Send(%s) (message seqno %d) returned ok although the relay never pushed AckMsg(%d) after seeing that message: an ack naming another seqno completed it [script %s]", id, so.Seqno, so.Seqno, sc.Name), witness(step))
 				return false
 			}
 			if ackedFor[id] == 0 {
@@ -378,6 +452,13 @@ func runC21Scripted(r *vf.Run, idx int, sc c21Script, pool []*keys.Identity, b *
 			nStreams = relay.NStreams()
 		}
 		st := sc.Steps[step]
+		if s.WritersParked() > 0 {
+			switch st.Do {
+			case "cancel", "ack", "ackabs", "send", "clear", "recvmsg", "reopen", "closeopen":
+				blockedEvents++
+				r.Count("scripted_steps_while_writer_blocked:"+st.Do, 1)
+			}
+		}
 		switch st.Do {
 		case "opened", "reopen":
 			epoch++
@@ -407,8 +488,12 @@ func runC21Scripted(r *vf.Run, idx int, sc c21Script, pool []*keys.Identity, b *
 				}
 				seq = uint64(int64(sq) + st.Delta)
 			}
+			// messages the client named by this number: transmitted ones, and the one whose
+			// write is blocked on the way to the relay (the client regards it as transmitted;
+			// a relay acknowledging it by number is outside the behaviours C21 judges)
+			named := append(relay.Reqs(), s.ParkedBefore()...)
 			seen := false
-			for _, rq := range relay.Reqs() {
+			for _, rq := range named {
 				if rq.Kind == "send" && rq.Seq == seq {
 					seen = true
 				}
@@ -420,7 +505,7 @@ func runC21Scripted(r *vf.Run, idx int, sc c21Script, pool []*keys.Identity, b *
 					ackedFor[st.ID]++
 				} else {
 					// an ack chosen by number: it stands for every message the client named so
-					for _, rq := range relay.Reqs() {
+					for _, rq := range named {
 						if rq.Kind == "send" && rq.Seq == seq {
 							ackedFor[rq.Data]++
 						}
@@ -452,6 +537,13 @@ func runC21Scripted(r *vf.Run, idx int, sc c21Script, pool []*keys.Identity, b *
 			if app.CancelRecv(st.N) {
 				r.Count("scripted_recv_cancelled", 1)
 			}
+		case "stall":
+			s.StallWrite(st.ID, st.After)
+			r.Count("scripted_write_gates_armed", 1)
+		case "unstall":
+			if n := s.ReleaseWrites(); n > 0 {
+				r.Count("scripted_blocked_writes_released", n)
+			}
 		case "expect-pending":
 			if op, ok := sends[st.ID]; ok {
 				if so := app.Snapshot(op); so.Done && so.OK {
@@ -470,6 +562,19 @@ func runC21Scripted(r *vf.Run, idx int, sc c21Script, pool []*keys.Identity, b *
 			r.Count("scripted_expected_recv_ok", 1)
 		}
 	}
+	// open every write gate that is still armed and judge the final quiescent state
+	if cur := relay.Cur(); cur != nil {
+		cur.ReleaseWrites()
+	}
+	if q := b.Quiesce(relay.LiveOK); !q.OK {
+		inconclusive(r, fmt.Sprintf("C21 script %d end", idx), q)
+		r.Case(sig, false)
+		return
+	}
+	if !oracle(len(sc.Steps) + 1) {
+		r.Case(sig, true)
+		return
+	}
 	preOnPending := 0 // dead-context Recv calls that found a message (the interesting half of that class)
 	for _, ro := range app.Recvs() {
 		if ro.Pre && ro.Done {
@@ -482,6 +587,9 @@ func runC21Scripted(r *vf.Run, idx int, sc c21Script, pool []*keys.Identity, b *
 		}
 	}
 	r.Case(sig, okSends > 0 || wrongDelivered > 0 || preOnPending > 0)
+	if blockedEvents > 0 {
+		r.Count("scripted_cases_with_events_during_a_blocked_write", 1)
+	}
 	r.Count("scripted_cases", 1)
 	r.Count("scripted_sends_ok", okSends)
 	r.Distinct("scripted_request_traces", fmt.Sprint(relay.Reqs()))
@@ -494,7 +602,7 @@ func runC21Scripted(r *vf.Run, idx int, sc c21Script, pool []*keys.Identity, b *
 // Part (i): Harness B
 
 type c21Op struct {
-	Op   string // send | cancel | recv | recvc | cancelrecv | kill | rule | release | q
+	Op   string // send | cancel | recv | recvc | cancelrecv | kill | rule | release | wstall | wrelease | reinc | q
 	A, B int    // peers (send: A->B; recv / recvc: A receives from B; kill: A's stream towards B; cancelrecv: A's N-th receive activity)
 	N    int
 	Ref  int // send / recv / recvc: which of A's ClientPeerRefs to B is used (taken modulo the program's Refs)
@@ -515,6 +623,12 @@ func (o c21Op) String() string {
 		return fmt.Sprintf("cancelrecv(%d #%d)", o.A, o.N)
 	case "kill":
 		return fmt.Sprintf("kill(%d>%d)", o.A, o.B)
+	case "wstall":
+		return fmt.Sprintf("stall-write(%d>%d %s %s)", o.A, o.B, o.Rule.Kind, map[int]string{0: "before-proxy", 1: "after-proxy"}[o.N])
+	case "wrelease":
+		return fmt.Sprintf("release-writes(%d)", o.A)
+	case "reinc":
+		return fmt.Sprintf("new-incarnation(%d)", o.A)
 	case "rule":
 		return fmt.Sprintf("rule(%s %s %s #%d %s)", o.Rule.Owner, o.Rule.Dir, o.Rule.Kind, o.Rule.Nth, o.Rule.Action)
 	}
@@ -625,6 +739,84 @@ func genC21Programs(r *vf.Run) []c21Prog {
 		ops = append(ops, q, c21Op{Op: "release"}, q)
 		out = append(out, c21Prog{Peers: peers, Refs: refs, Ops: ops})
 	}
+	// Second family (own PRNG stream): blocked client writers and NEW INCARNATIONS of a peer
+	// (same identity, fresh client object whose message seqnos restart at 1, while the
+	// server still holds the previous incarnation's call).
+	xr := r.Rand("c21-harnessB-incarnations-and-blocked-writes")
+	for i, n := 0, r.N(90, 3000); i < n; i++ {
+		peers := 2 + xr.IntN(2)
+		refs := []int{1, 1, 2, 3}[xr.IntN(4)]
+		a := xr.IntN(peers)
+		bb := (a + 1 + xr.IntN(peers-1)) % peers
+		snd := func(k int) c21Op { return c21Op{Op: "send", A: a, B: bb, Ref: k} }
+		rcv := func(n int) c21Op { return c21Op{Op: "recv", A: bb, B: a, N: n, Ref: xr.IntN(refs)} }
+		stallRecv := c21Op{Op: "rule", Rule: g8sig.HBRule{Owner: peerNames[bb], Dir: "s2c", Kind: "recv", Nth: 0, Action: "stall"}}
+		var ops []c21Op
+		nsend := 0
+		switch i % 6 {
+		case 0, 1: // the receiver holds an unprocessed message of the OLD incarnation; the new one's first message is slow; late Recv
+			for w, nw := 0, (i/6)%2; w < nw; w++ { // optional completed exchange first (then the seqnos of old and new differ)
+				ops = append(ops, rcv(1), snd(nsend), q)
+				nsend++
+			}
+			ops = append(ops, snd(nsend), q)
+			nsend++
+			if xr.IntN(4) != 0 {
+				ops = append(ops, stallRecv)
+			}
+			ops = append(ops, c21Op{Op: "reinc", A: a}, snd(nsend), q, rcv(1), q, c21Op{Op: "release"}, q, rcv(1), q)
+			nsend++
+		case 2: // both directions pending, the RECEIVER of the first message re-incarnates too
+			ops = append(ops, snd(0), c21Op{Op: "send", A: bb, B: a}, q, stallRecv, c21Op{Op: "reinc", A: a}, q)
+			nsend = 2
+			if xr.IntN(2) == 0 {
+				ops = append(ops, c21Op{Op: "reinc", A: bb}, q)
+			}
+			ops = append(ops, snd(2), q, rcv(1), c21Op{Op: "recv", A: a, B: bb, N: 1}, q, c21Op{Op: "release"}, q, rcv(1), q)
+			nsend++
+		case 3: // the old incarnation's message was received but its ack is slow; new incarnation sends under the same number
+			ops = append(ops, c21Op{Op: "rule", Rule: g8sig.HBRule{Owner: peerNames[bb], Dir: "c2s", Kind: "ack", Nth: 0, Action: "stall"}},
+				rcv(1), snd(0), q, c21Op{Op: "reinc", A: a}, snd(1), q, c21Op{Op: "release"}, q, rcv(1), q)
+			nsend = 2
+		case 4: // blocked writer: Send(m1) transmitted, the caller gives up, the partner's ack arrives, only then the write returns; next Send with a late receiver
+			after := xr.IntN(3) != 0
+			ops = append(ops, c21Op{Op: "rule", Rule: g8sig.HBRule{Owner: peerNames[a], Dir: "s2c", Kind: "ack", Nth: 0, Action: "stall"}},
+				rcv(1), c21Op{Op: "wstall", A: a, B: bb, N: map[bool]int{false: 0, true: 1}[after], Rule: g8sig.HBRule{Kind: "send"}}, snd(0), q)
+			if after {
+				ops = append(ops, c21Op{Op: "cancel", N: 0}, q, c21Op{Op: "release"}, q, c21Op{Op: "wrelease", A: a}, q)
+			} else {
+				// the proxy has not got m1 yet: give up, let the write through, the ack comes back to a cancelled slot
+				ops = append(ops, c21Op{Op: "cancel", N: 0}, q, c21Op{Op: "wrelease", A: a}, q, c21Op{Op: "release"}, q)
+			}
+			ops = append(ops, snd(1), q, rcv(1), q)
+			nsend = 2
+		case 5: // blocked writer on the RECEIVER's ack / any write, sender cancels and re-sends meanwhile
+			ops = append(ops, c21Op{Op: "wstall", A: bb, B: a, N: xr.IntN(2), Rule: g8sig.HBRule{Kind: []string{"ack", "any"}[xr.IntN(2)]}},
+				rcv(1), snd(0), q, c21Op{Op: "cancel", N: 0}, snd(1), q, c21Op{Op: "wrelease", A: bb}, q, rcv(1), q)
+			nsend = 2
+		}
+		for j, m := 0, xr.IntN(5); j < m; j++ {
+			a := xr.IntN(peers)
+			bb := (a + 1 + xr.IntN(peers-1)) % peers
+			switch x := xr.IntN(10); {
+			case x < 3 && nsend < 8:
+				ops = append(ops, c21Op{Op: "send", A: a, B: bb, Ref: xr.IntN(refs)})
+				nsend++
+			case x < 6:
+				ops = append(ops, c21Op{Op: "recv", A: a, B: bb, N: 1, Ref: xr.IntN(refs)})
+			case x == 6:
+				ops = append(ops, c21Op{Op: "reinc", A: a}, q)
+			case x == 7:
+				ops = append(ops, c21Op{Op: "wstall", A: a, B: bb, N: xr.IntN(2), Rule: g8sig.HBRule{Kind: []string{"send", "ack", "clear", "any"}[xr.IntN(4)]}})
+			case x == 8 && nsend > 0:
+				ops = append(ops, c21Op{Op: "cancel", N: xr.IntN(nsend)})
+			default:
+				ops = append(ops, q)
+			}
+		}
+		ops = append(ops, q, c21Op{Op: "wrelease", A: -1}, c21Op{Op: "release"}, q)
+		out = append(out, c21Prog{Peers: peers, Refs: refs, Ops: ops})
+	}
 	return out
 }
 
@@ -641,37 +833,51 @@ func runC21B(r *vf.Run, idx int, pg c21Prog, pool []*keys.Identity, b *g8sig.Bat
 	ids := make([]*keys.Identity, pg.Peers)
 	apps := make([]*g8sig.App, pg.Peers)
 	clients := make([]*signaling_client.Client, pg.Peers)
-	refs := map[[3]int]*signaling_client.ClientPeerRef{} // (owner, remote, k): the k-th reference owner holds to remote
+	stops := make([]context.CancelFunc, pg.Peers)        // ends the current incarnation's client
+	refs := map[[3]int]*signaling_client.ClientPeerRef{} // (owner, remote, k): the k-th reference owner's CURRENT incarnation holds to remote
+	var allRefs []*signaling_client.ClientPeerRef
 	nameOf := map[string]string{}
-	for i := 0; i < pg.Peers; i++ {
-		ids[i] = pool[(idx+i)%len(pool)]
-		nameOf[ids[i].String()] = peerNames[i]
-		apps[i] = g8sig.NewApp(peerNames[i], &clock)
-		c, err := g8sig.NewClient(ctx, ids[i], hb.ClientFor(ids[i], peerNames[i]))
+	// incarnate builds a fresh client object for peer i (same identity) with its references
+	incarnate := func(i int) bool {
+		cctx, stop := context.WithCancel(ctx)
+		c, err := g8sig.NewClient(cctx, ids[i], hb.ClientFor(ids[i], peerNames[i]))
 		if err != nil {
-			cancel()
-			r.Inconclusive("NewClient: " + err.Error())
-			return
+			stop()
+			return false
 		}
-		clients[i] = c
-	}
-	for i := 0; i < pg.Peers; i++ {
+		clients[i], stops[i] = c, stop
 		for j := 0; j < pg.Peers; j++ {
 			if i != j {
 				for k := 0; k < pg.Refs; k++ {
-					refs[[3]int{i, j, k}] = clients[i].AddPeerRef(ids[j].String())
+					rf := c.AddPeerRef(ids[j].String())
+					refs[[3]int{i, j, k}] = rf
+					allRefs = append(allRefs, rf)
 				}
 				hb.Expect(peerNames[i], ids[j].String(), true)
 			}
 		}
+		return true
+	}
+	for i := 0; i < pg.Peers; i++ {
+		ids[i] = pool[(idx+i)%len(pool)]
+		nameOf[ids[i].String()] = peerNames[i]
+		apps[i] = g8sig.NewApp(peerNames[i], &clock)
+	}
+	for i := 0; i < pg.Peers; i++ {
+		if !incarnate(i) {
+			cancel()
+			r.Inconclusive("NewClient failed")
+			return
+		}
 	}
 	defer func() {
 		cancel()
+		hb.ReleaseWrites("")
 		hb.Shutdown()
 		for _, a := range apps {
 			a.Wait()
 		}
-		for _, rf := range refs {
+		for _, rf := range allRefs {
 			rf.Release()
 		}
 	}()
@@ -682,6 +888,7 @@ func runC21B(r *vf.Run, idx int, pg c21Prog, pool []*keys.Identity, b *g8sig.Bat
 	}
 	var sends []*sendRec
 	sentTo := map[string][2]int{}
+	incarnations := 0
 	quiesce := func(where string) bool {
 		q := b.Quiesce(hb.LiveOK)
 		if !q.OK {
@@ -732,6 +939,33 @@ func runC21B(r *vf.Run, idx int, pg c21Prog, pool []*keys.Identity, b *g8sig.Bat
 			r.Count("harnessB_op_rule_"+o.Rule.Action, 1)
 		case "release":
 			r.Count("harnessB_released_held_messages", hb.ReleaseHeld())
+		case "wstall":
+			if cn := hb.Latest(peerNames[o.A], ids[o.B].String()); cn != nil {
+				cn.C.StallWrite(o.Rule.Kind, o.N == 1)
+				r.Count("harnessB_op_write_gate_armed", 1)
+			}
+		case "wrelease":
+			owner := ""
+			if o.A >= 0 {
+				owner = peerNames[o.A]
+			}
+			if n := hb.ReleaseWrites(owner); n > 0 {
+				r.Count("harnessB_blocked_writes_released", n)
+			}
+		case "reinc":
+			// the process of peer A is replaced: its connections linger at the server
+			// (nobody told it), the old client object stops, a fresh client object for
+			// the same identity opens its sessions and usurps the registered calls
+			hb.ReleaseWrites(peerNames[o.A])
+			r.Count("harnessB_calls_left_registered_by_previous_incarnation", hb.Orphan(peerNames[o.A]))
+			stops[o.A]()
+			if !incarnate(o.A) {
+				r.Inconclusive("NewClient failed")
+				r.Case(sig, false)
+				return
+			}
+			incarnations++
+			r.Count("harnessB_op_new_incarnation", 1)
 		case "q":
 			if !quiesce(fmt.Sprintf("op %d", oi)) {
 				r.Case(sig, false)
@@ -829,6 +1063,9 @@ func runC21B(r *vf.Run, idx int, pg c21Prog, pool []*keys.Identity, b *g8sig.Bat
 	r.Count("harnessB_cases", 1)
 	if pg.Refs > 1 {
 		r.Count("harnessB_cases_with_several_refs_per_peer", 1)
+	}
+	if incarnations > 0 {
+		r.Count("harnessB_cases_with_a_second_incarnation_of_a_peer", 1)
 	}
 	r.Count("harnessB_sends_ok", okCount)
 	r.Count("harnessB_crossings", ncross)
